@@ -97,45 +97,64 @@ def _chain(chk):
 def _stacker(chk):
     pm = chk.pm
     st = pm.cls("xeofs.preprocessing.stacker.Stacker")
+    from .common import class_closure, resolve_sources
     stack = st.methods["_stack"]
     sf = FuncFacts.of(stack)
-    # forward: which name each stack/rename targets
+    # forward: which name each stack/rename targets (the calls may live in private helpers)
     fwd = {"stack": set(), "rename": set()}
-    for c in calls_in(stack):
-        if isinstance(c.func, ast.Attribute) and c.func.attr in ("stack", "rename") and c.args and isinstance(c.args[0], ast.Dict):
-            d = c.args[0]
-            if c.func.attr == "stack":
-                for k in d.keys:
-                    fwd["stack"] |= {p.atom.name for p in sf.paths(k, spine_only=True)}
-            else:
-                for v in d.values:
-                    fwd["rename"] |= {p.atom.name for p in sf.paths(v, spine_only=True)}
+    for g in class_closure(pm, st, stack):
+        for c in calls_in(g):
+            if isinstance(c.func, ast.Attribute) and c.func.attr in ("stack", "rename") and c.args and isinstance(c.args[0], ast.Dict):
+                d = c.args[0]
+                if c.func.attr == "stack":
+                    for k in d.keys:
+                        fwd["stack"] |= resolve_sources(pm, st, g, k)
+                else:
+                    for v in d.values:
+                        fwd["rename"] |= resolve_sources(pm, st, g, v)
     chk.check(fwd["stack"] == {"self.sample_name", "self.feature_name"} and fwd["rename"] == {"self.sample_name", "self.feature_name"},
               "MIRROR.state.stack.names", stack, stack.node, construct="_stack stacks / renames into sample_name and feature_name",
               why=f"forward stacking targets {fwd}")
     un = st.methods["_unstack_to_dataarray"]
-    uf = FuncFacts.of(un)
     inv = {"unstack": set(), "rename_from": set(), "rename_to": set()}
-    for c in calls_in(un):
-        if isinstance(c.func, ast.Attribute) and c.func.attr == "unstack" and c.args:
-            inv["unstack"] |= {p.atom.name for p in uf.paths(c.args[0], spine_only=True)}
-        if isinstance(c.func, ast.Attribute) and c.func.attr == "rename" and c.args and isinstance(c.args[0], ast.Dict):
-            for k, v in zip(c.args[0].keys, c.args[0].values):
-                inv["rename_from"] |= {p.atom.name for p in uf.paths(k, spine_only=True)}
-                for p in uf.paths(v, spine_only=True):
-                    if p.atom.name == "self.dims_mapping":
-                        subs = [o.name for o in p.ops if o.kind == "subscript"]
-                        inv["rename_to"].add(tuple(subs))
+    pair_ok = True
+    for g in class_closure(pm, st, un):
+        for c in calls_in(g):
+            if isinstance(c.func, ast.Attribute) and c.func.attr == "unstack" and c.args:
+                inv["unstack"] |= resolve_sources(pm, st, g, c.args[0])
+            if isinstance(c.func, ast.Attribute) and c.func.attr == "rename" and c.args and isinstance(c.args[0], ast.Dict):
+                for k, v in zip(c.args[0].keys, c.args[0].values):
+                    ks = resolve_sources(pm, st, g, k)
+                    vs = resolve_sources(pm, st, g, v)
+                    inv["rename_from"] |= ks
+                    inv["rename_to"] |= vs
+    want_to = {"self.dims_mapping[self.sample_name][0]", "self.dims_mapping[self.feature_name][0]"}
+    inv["rename_to"] = {t.replace("[sample_name]", "[self.sample_name]").replace("[feature_name]", "[self.feature_name]") for t in inv["rename_to"]}
     okinv = inv["unstack"] == {"self.sample_name", "self.feature_name"} and inv["rename_from"] == {"self.sample_name", "self.feature_name"} \
-        and inv["rename_to"] == {("sample_name", "0"), ("feature_name", "0")}
+        and inv["rename_to"] == want_to
     chk.check(okinv, "MIRROR.state.stack.inverse", un, un.node, construct="_unstack_to_dataarray: unstack(name) / rename({name: dims_mapping[name][0]})",
               why=f"the inverse does not undo the forward stacking by the same names ({inv})")
-    # each rename in the inverse maps name -> dims_mapping[SAME name][0]
-    for c in calls_in(un):
-        if isinstance(c.func, ast.Attribute) and c.func.attr == "rename" and c.args and isinstance(c.args[0], ast.Dict):
-            k, v = c.args[0].keys[0], c.args[0].values[0]
-            kn = norm(k)
-            chk.check(f"[{kn}]" in norm(v), "MIRROR.state.stack.pair", un, c, why="a stacked name is renamed back to the original dimension of the other role")
+    # every rename-back call site pairs a stacked name with the original dimension of the SAME role
+    for g in class_closure(pm, st, un):
+        gf = FuncFacts.of(g)
+        if g is un:
+            for c in calls_in(g):
+                if isinstance(c.func, ast.Attribute) and c.func.attr == "rename" and c.args and isinstance(c.args[0], ast.Dict):
+                    k, v = c.args[0].keys[0], c.args[0].values[0]
+                    chk.check(f"[{norm(k)}]" in norm(v), "MIRROR.state.stack.pair", un, c, why="a stacked name is renamed back to the original dimension of the other role")
+        else:
+            # helper(X, stacked_name, original_dims): at each call the two arguments must refer to the same role
+            from .common import callers_in_class, bind_args as _bind
+            for caller, call in callers_in_class(pm, st, g):
+                b = _bind(g, call)
+                roles = []
+                for pn, a in b.items():
+                    t = norm(a)
+                    if "sample_name" in t:
+                        roles.append("sample")
+                    if "feature_name" in t:
+                        roles.append("feature")
+                chk.check(len(set(roles)) <= 1, "MIRROR.state.stack.pair", caller, call, why="a stacked name is un-stacked / renamed back with the original dimensions of the other role")
     fit = st.methods["fit"]
     ffit = FuncFacts.of(fit)
     pairs = set()
